@@ -84,27 +84,3 @@ theorem C07_accepted (fl : Flags) (cls : CharClass) (o : Orders) (stmts : List S
     · exact Or.inr h1
 
 #print axioms C07_accepted
-
-/-- the identity iteration order is a permutation -/
-theorem ordersOK_default : OrdersOK {} :=
-  ⟨fun _ => List.Perm.refl _, fun _ _ => List.Perm.refl _, fun _ => List.Perm.refl _, fun _ _ => List.Perm.refl _⟩
-
-/-- the hypotheses of `C07_accepted` are satisfiable: a counter in a register bank driving `Stat`, a data-memory
-    read and the register file (accepted by the model with the default flags) -/
-def exampleStmts : List Stmt :=
-  [ .consts [⟨"ONE", .const ⟨1, .unlimited⟩⟩],
-    .bank ⟨"cC", [⟨"n", .bits 8, .const ⟨0, .unlimited⟩⟩]⟩,
-    .wires [⟨"sum", .bits 64⟩],
-    .assigns [⟨["c_n"], .bin .add (.wire "C_n") (.wire "ONE")⟩],
-    .assigns [⟨["pc"], .const ⟨0, .unlimited⟩⟩],
-    .assigns [⟨["mem_addr"], .const ⟨8, .unlimited⟩⟩, ⟨["mem_readbit"], .const ⟨1, .unlimited⟩⟩,
-              ⟨["mem_writebit"], .const ⟨0, .unlimited⟩⟩],
-    .assigns [⟨["reg_srcA"], .const ⟨3, .bits 4⟩⟩],
-    .assigns [⟨["sum"], .bin .add (.wire "mem_output") (.wire "reg_outputA")⟩],
-    .assigns [⟨["reg_dstE"], .const ⟨0, .bits 4⟩⟩, ⟨["reg_inputE"], .wire "sum"⟩],
-    .assigns [⟨["Stat"], .mux (.cons (.bin .eq (.wire "C_n") (.const ⟨2, .unlimited⟩)) (.const ⟨2, .bits 3⟩)
-                               (.cons (.const ⟨1, .unlimited⟩) (.const ⟨1, .bits 3⟩) .nil))⟩] ]
-
-
-example : (match Program.new {} {} {} y86FixedFunctions exampleStmts with | .ok _ => true | .error _ => false) = true := by
-  decide +kernel
